@@ -404,9 +404,28 @@ class Verifier:
 
     # ---- discharge -------------------------------------------------------------------------------
     def discharge(self, rep: FunctionReport, timeout_ms=None):
+        """two passes under a wall-clock budget per target: (1) every obligation gets a short z3 attempt - on a tree where the contracts
+        hold almost all are discharged here, and a refutable one is refuted here wherever it sits in the list; (2) what is left gets the
+        full solver portfolio until the budget is used up.  An obligation the budget did not reach is `unknown` (undecided), never more:
+        a changed function whose obligations all time out must not stall the whole check."""
         from . import smt
+        tmo = timeout_ms or self.timeout_ms
+        budget = float(os.environ.get("PYVC_TARGET_BUDGET_S", "150" if tmo <= 10000 else "1800"))
+        t0 = time.time()
+        pending = []
         for ob in rep.obligations:
-            smt.discharge(ob, timeout_ms or self.timeout_ms)
+            if time.time() - t0 > budget:
+                ob.result, ob.backend, ob.note = "unknown", "none", (ob.note + " " if ob.note else "") + "target budget exhausted before this obligation"
+                continue
+            smt.discharge(ob, tmo, quick_only=True)
+            if ob.result == "unknown":
+                pending.append(ob)
+        for ob in pending:
+            if time.time() - t0 > budget:
+                ob.note = (ob.note + " " if ob.note else "") + "target budget exhausted (short z3 attempt only)"
+                continue
+            ob.note = ""
+            smt.discharge(ob, tmo)
 
 
 def _with_pc(old: State, st: State) -> State:
